@@ -840,5 +840,93 @@ pub const fn resize<const T: usize>(&self) -> (ret__: Uint<T>)
     }
 }
 //@@ end
+//@@ fn src/const_choice.rs | impl<const LIMBS: usize> ConstCtOption<Uint<LIMBS>> | unwrap_or | body | props C06 C11
+impl<const LIMBS: usize> ConstCtOption<Uint<LIMBS>> {
+pub const fn unwrap_or(self, def: Uint<LIMBS>) -> (ret__: Uint<LIMBS>)
+//@+
+    requires self.is_some.wf()
+    ensures ret__ == (if self.is_some.t() { self.value } else { def })
+//@-
+{
+        Uint::select(&def, &self.value, self.is_some)
+    }
+}
+//@@ end
+//@@ fn src/const_choice.rs | impl<const LIMBS: usize> ConstCtOption<Uint<LIMBS>> | expect | body | props C06 C11
+impl<const LIMBS: usize> ConstCtOption<Uint<LIMBS>> {
+pub const fn expect(self, msg: &str) -> (ret__: Uint<LIMBS>)
+//@+
+    requires self.is_some.t()
+    ensures ret__ == self.value
+//@-
+{
+        assert!(self.is_some.is_true_vartime(), "{}", msg);
+        self.value
+    }
+}
+//@@ end
+//@@ fn src/const_choice.rs | impl<const LIMBS: usize> ConstCtOption<(Uint<LIMBS>, Uint<LIMBS>)> | expect | body | props C06 C11
+impl<const LIMBS: usize> ConstCtOption<(Uint<LIMBS>, Uint<LIMBS>)> {
+pub const fn expect(self, msg: &str) -> (ret__: (Uint<LIMBS>, Uint<LIMBS>))
+//@+
+    requires self.is_some.t()
+    ensures ret__ == self.value
+//@-
+{
+        assert!(self.is_some.is_true_vartime(), "{}", msg);
+        self.value
+    }
+}
+//@@ end
+//@@ fn src/const_choice.rs | impl<const LIMBS: usize> ConstCtOption<NonZero<Uint<LIMBS>>> | expect | body | props C12 C11
+impl<const LIMBS: usize> ConstCtOption<NonZero<Uint<LIMBS>>> {
+pub const fn expect(self, msg: &str) -> (ret__: NonZero<Uint<LIMBS>>)
+//@+
+    requires self.is_some.t()
+    ensures ret__ == self.value
+//@-
+{
+        assert!(self.is_some.is_true_vartime(), "{}", msg);
+        self.value
+    }
+}
+//@@ end
+//@@ fn src/const_choice.rs | impl<const LIMBS: usize> ConstCtOption<Odd<Uint<LIMBS>>> | expect | body | props C12 C11
+impl<const LIMBS: usize> ConstCtOption<Odd<Uint<LIMBS>>> {
+pub const fn expect(self, msg: &str) -> (ret__: Odd<Uint<LIMBS>>)
+//@+
+    requires self.is_some.t()
+    ensures ret__ == self.value
+//@-
+{
+        assert!(self.is_some.is_true_vartime(), "{}", msg);
+        self.value
+    }
+}
+//@@ end
+//@@ fn src/const_choice.rs | impl ConstCtOption<NonZero<Limb>> | expect | body | props C12 C11
+impl ConstCtOption<NonZero<Limb>> {
+pub const fn expect(self, msg: &str) -> (ret__: NonZero<Limb>)
+//@+
+    requires self.is_some.t()
+    ensures ret__ == self.value
+//@-
+{
+        assert!(self.is_some.is_true_vartime(), "{}", msg);
+        self.value
+    }
+}
+//@@ end
+//@@ fn src/limb.rs | impl Limb | to_nz | body | props C12 C11
+impl Limb {
+pub const fn to_nz(self) -> (ret__: ConstCtOption<NonZero<Self>>)
+//@+
+    ensures ret__.value.0 == self, ret__.is_some.wf(), ret__.is_some.t() == (self.0 != 0)
+//@-
+{
+        ConstCtOption::new(NonZero(self), self.is_nonzero())
+    }
+}
+//@@ end
 
 } // verus!
